@@ -33,7 +33,7 @@ fn h(s: &str) -> u64 {
 pub fn eval(f: &AsepriteFile, c: &Call) -> u64 {
     match c {
         Call::Header => h(&format!("{:?}", (f.width(), f.height(), f.size(), f.num_frames(), f.num_layers(), f.pixel_format(), f.is_indexed_color(), f.transparent_color_index(), f.num_tags(), ud(f.sprite_user_data())))),
-        Call::LayerInfo(l) => h(&format!("{:?}", layer_obs(&f.layer(*l)))),
+        Call::LayerInfo(l) => h(&format!("{:?}{:?}", layer_obs(&f.layer(*l)), f.layer_by_name(f.layer(*l).name()).map(|x| x.id()))),
         Call::Duration(fr) => f.frame(*fr).duration() as u64,
         Call::FrameImage(fr) => hash_bytes(f.frame(*fr).image().as_raw()),
         Call::CelInfo(fr, l) => h(&format!("{:?}", cel_obs(&f.cel(*fr, *l), false))),
@@ -43,7 +43,12 @@ pub fn eval(f: &AsepriteFile, c: &Call) -> u64 {
         Call::TilesetImage(id) => f.tilesets().get(*id).map_or(0, |t| hash_bytes(t.image().as_raw())),
         Call::TileImage(id, i) => f.tilesets().get(*id).map_or(0, |t| hash_bytes(t.tile_image(*i).as_raw())),
         Call::Palette => h(&format!("{:?}", f.palette().map(|p| palette_ids(p).into_iter().map(|i| p.color(i).map(|e| (e.id(), e.raw_rgba8(), e.name().map(|s| s.to_string())))).collect::<Vec<_>>()))),
-        Call::Tags => h(&format!("{:?}", (0..f.num_tags()).map(|i| tag_obs(f.tag(i))).collect::<Vec<_>>())),
+        Call::Tags => {
+            let n = f.num_tags();
+            // lookups by name (first match) are part of the observation
+            let by_name: Vec<Option<u32>> = (0..n.min(64)).chain(n.saturating_sub(8)..n).map(|i| f.tag_by_name(f.tag(i).name()).map(|t| t.from_frame() ^ (t.to_frame() << 16))).collect();
+            h(&format!("{:?}{:?}{:?}", (0..n).map(|i| tag_obs(f.tag(i))).collect::<Vec<_>>(), by_name, f.tag_by_name("\u{1}absent").is_none()))
+        }
         Call::Slices => h(&format!("{:?}", f.slices().iter().map(slice_obs).collect::<Vec<_>>())),
         Call::Ext => {
             let mut v: Vec<(u32, String)> = f.external_files().map().iter().map(|(k, v)| (k.value(), v.name().to_string())).collect();
@@ -109,6 +114,8 @@ pub struct Case {
     pub model: Option<crate::model::Sprite>,
     /// a sibling sprite: same pixels, palette colours and structure, but different names everywhere
     pub sibling: Option<(crate::model::Sprite, Vec<u8>)>,
+    /// same structure and shapes, other pixel values (encoded with the same plan)
+    pub variant: Option<Vec<u8>>,
 }
 
 pub fn build_bytes(t: &mut Tape) -> (Vec<u8>, bool) {
@@ -148,6 +155,39 @@ fn rename(s: &crate::model::Sprite) -> crate::model::Sprite {
     a
 }
 
+/// same structure, sizes and offsets; other pixel values (RGBA/gray: complemented colour bytes; indexed:
+/// pixel order reversed, so every index stays valid)
+fn repaint(s: &crate::model::Sprite) -> crate::model::Sprite {
+    use crate::model::*;
+    let mut a = s.clone();
+    let paint = |px: &mut Vec<u8>, fmt: Fmt| match fmt {
+        Fmt::Rgba => {
+            for c in px.chunks_exact_mut(4) {
+                c[0] = !c[0];
+                c[1] = !c[1];
+                c[2] = !c[2];
+            }
+        }
+        Fmt::Gray => {
+            for c in px.chunks_exact_mut(2) {
+                c[0] = !c[0];
+            }
+        }
+        Fmt::Indexed => px.reverse(),
+    };
+    for fr in a.frames.iter_mut() {
+        for c in fr.cels.iter_mut() {
+            if let CelContent::Image { pixels, .. } = &mut c.content {
+                paint(pixels, s.fmt);
+            }
+        }
+    }
+    for ts in a.tilesets.iter_mut() {
+        paint(&mut ts.pixels, s.fmt);
+    }
+    a
+}
+
 pub fn build_case(t: &mut Tape) -> Case {
     if t.chance(1, 8) {
         // a tilemap layer whose tileset id matches none of >= 2 tilesets (must be rejected; if it is
@@ -171,13 +211,13 @@ pub fn build_case(t: &mut Tape) -> Case {
             }
         }
         let plan = build_plan(t);
-        return Case { bytes: encode(&s, &plan).bytes, hostile: true, model: None, sibling: None };
+        return Case { bytes: encode(&s, &plan).bytes, hostile: true, model: None, sibling: None, variant: None };
     }
     if t.chance(1, 3) {
         // accepted-corrupted candidates
         let rest: Vec<u32> = (0..600).map(|_| t.raw()).collect();
         let b = super::robust::build_hostile(&rest);
-        Case { bytes: b.bytes, hostile: true, model: None, sibling: None }
+        Case { bytes: b.bytes, hostile: true, model: None, sibling: None, variant: None }
     } else {
         let mut cfg = super::c07::cfg();
         if t.chance(1, 3) {
@@ -198,10 +238,21 @@ pub fn build_case(t: &mut Tape) -> Case {
             }
             _ => {}
         }
+        if t.chance(1, 8) {
+            // thousands of tags: anything built lazily on first use takes long enough to be raced
+            let tags = s.tags.get_or_insert_with(Vec::new);
+            let n = 3000 + t.below(3000) as usize;
+            while tags.len() < n {
+                let i = tags.len();
+                tags.push(crate::model::Tag { from: i as u16, to: (i / 2) as u16, dir: (i % 3) as u8, repeat: 0, name: format!("tag-{}", i % 1500) });
+            }
+        }
         let plan = build_plan(t);
         let sib = rename(&s);
         let sib_bytes = encode(&sib, &plan).bytes;
-        Case { bytes: encode(&s, &plan).bytes, hostile: false, model: Some(s), sibling: Some((sib, sib_bytes)) }
+        let var = repaint(&s);
+        let var_bytes = encode(&var, &plan).bytes;
+        Case { bytes: encode(&s, &plan).bytes, hostile: false, model: Some(s), sibling: Some((sib, sib_bytes)), variant: Some(var_bytes) }
     }
 }
 
@@ -275,6 +326,42 @@ pub fn check(tape: &[u32]) -> CheckResult {
             }
         }
     });
+    if bad.is_none() {
+        // the same again on a FRESH load that no thread has touched yet: the threads race to be the first caller
+        let f3 = AsepriteFile::read(&bytes[..]).map_err(|e| Failure::new("reload-fails", format!("reload failed: {}", e)))?;
+        let barrier = Barrier::new(threads);
+        std::thread::scope(|sc| {
+            let hs: Vec<_> = seeds
+                .iter()
+                .map(|sd| {
+                    let (f3, calls, base, barrier) = (&f3, &calls, &base, &barrier);
+                    sc.spawn(move || {
+                        // cheap calls first (they are the ones whose first use is quick enough to overlap)
+                        let mut p = permutation(calls.len(), sd.rotate_left(7));
+                        p.sort_by_key(|i| !matches!(calls[*i], Call::Tags | Call::Header | Call::LayerInfo(_) | Call::Palette | Call::Slices | Call::Ext));
+                        barrier.wait();
+                        for &i in &p {
+                            if matches!(calls[i], Call::Debugfmt) {
+                                continue;
+                            }
+                            if eval(f3, &calls[i]) != base[i] {
+                                return Some(calls[i].clone());
+                            }
+                        }
+                        None
+                    })
+                })
+                .collect();
+            for hd in hs {
+                if let Ok(Some(c)) = hd.join() {
+                    bad = Some(c);
+                }
+            }
+        });
+        if let Some(c) = &bad {
+            return Err(Failure::new("thread-dependent-first-use", format!("call {:?} returned a different result when {} threads raced to be the first users of a freshly loaded sprite", c, threads)).with(detail(json!({"threads": threads}))));
+        }
+    }
     if let Some(c) = bad {
         return Err(Failure::new("thread-dependent", format!("call {:?} returned a different result when run concurrently from {} threads", c, threads)).with(detail(json!({"threads": threads}))));
     }
@@ -301,6 +388,39 @@ pub fn check(tape: &[u32]) -> CheckResult {
         super::c01::compare_structure(m, &fb).map_err(|e| Failure::new(format!("cross-sprite-state:{}", e.signature), format!("reloading a sprite while a sibling is alive changes what it reports: {}", e.msg)).with(detail(json!({"sibling_hex": if sb.len() < 8000 { hex(sb) } else { String::new() }}))))?;
         super::c01::compare_structure(m, &f).map_err(|e| Failure::new(format!("cross-sprite-state:{}", e.signature), format!("an already loaded sprite changed after a sibling was loaded: {}", e.msg)).with(detail(json!(null))))?;
         drop(fa);
+    }
+    // history of loads on one thread: drop everything, then load a variant with the same shapes but other
+    // pixels on THIS thread (which has just rendered the original) and, as the reference, on a brand-new
+    // thread (no thread-local state, other heap addresses); both must observe the same
+    if let Some(vb) = &case.variant {
+        drop(f2);
+        drop(f);
+        let here = match AsepriteFile::read(&vb[..]) {
+            Ok(fv) => Some(observe(&fv, true)),
+            Err(_) => None,
+        };
+        let vb2 = vb.clone();
+        let fresh = std::thread::spawn(move || match AsepriteFile::read(&vb2[..]) {
+            Ok(fv) => Some(observe(&fv, true)),
+            Err(_) => None,
+        })
+        .join()
+        .map_err(|_| Failure::new("panic:variant-thread", "observing the variant on a fresh thread panicked"))?;
+        match (&here, &fresh) {
+            (Some(a), Some(b)) if a != b => {
+                return Err(Failure::new("load-history-dependent", format!("a sprite loaded on a thread that had just loaded and rendered another sprite of the same shape is observed differently than on a fresh thread: {}", super::c07::diff_obs(a, b))).with(json!({"first_hex": if bytes.len() < 6000 { hex(&bytes) } else { String::new() }, "second_hex": if vb.len() < 6000 { hex(vb) } else { String::new() }})));
+            }
+            (Some(_), None) | (None, Some(_)) => return Err(Failure::new("load-history-dependent", "a sprite loads on one thread but not on another")),
+            _ => {}
+        }
+        let distinct: std::collections::HashSet<&Call> = calls.iter().collect();
+        let has_img = calls.iter().any(|c| matches!(c, Call::FrameImage(_) | Call::CelImage(..) | Call::TilesetImage(_) | Call::Tilemap(..)));
+        let mut o = Outcome::new(distinct.len() >= 8 && has_img && threads >= 2, hash_bytes(&bytes) ^ mix(perm.len() as u64, threads as u64));
+        o.labels.push(format!("threads-{}", if threads <= 4 { "2-4" } else if threads <= 8 { "5-8" } else { "9-16" }));
+        o.labels.push("variant-after-drop".into());
+        o.counters.push(("api_calls_compared", (n * (4 + 2 * threads)) as u64));
+        o.sample = Some(json!({"file_bytes": bytes.len(), "calls": n, "threads": threads, "first_calls": calls.iter().take(8).map(|c| format!("{:?}", c)).collect::<Vec<_>>()}));
+        return Ok(o);
     }
     let distinct: std::collections::HashSet<&Call> = calls.iter().collect();
     let has_img = calls.iter().any(|c| matches!(c, Call::FrameImage(_) | Call::CelImage(..) | Call::TilesetImage(_) | Call::Tilemap(..)));
